@@ -41,7 +41,7 @@ def run_lb(cfg, values=None, ctx=None):
                     ctx.assume(z3.Or(z3.And(a > 0, b > 0, a < b), z3.And(a > 0, b < 0), z3.And(a < 0, b < 0, a < b)))
         W.on_fresh = on_fresh
     K = sym_matrix('K', n, active, V)
-    KG = sym_matrix('G', n, active, V)
+    KG = sym_matrix('G', n, cfg.get('active_G', active), V)     # active_G: amplitudes with stiffness but no geometric stiffness
     stubs = {'eigsh': W.eigsh, 'eigh': W.eigh, 'scipy.linalg.eigh': W.eigh}
     obs = []
     from ..eigstubs import fork_policy, sym_to_z3
@@ -93,7 +93,7 @@ def run_lb(cfg, values=None, ctx=None):
         # which solver column is this?  (robust to a consistent permutation of values and vectors)
         j = None
         for cand in mus:
-            if any(eigvecs[r, i] is cand[3][q] for q, r in enumerate(last_rows)):
+            if any(q < len(cand[3]) and eigvecs[r, i] is cand[3][q] for q, r in enumerate(last_rows)):
                 j = cand[1]
                 mu = cand[2]
                 break
@@ -194,12 +194,13 @@ def real_replay(cfg):
     u = len(active)
     A = rng.rand(u, u)
     Kr = A.dot(A.T) + u * np.eye(u)
-    B = rng.rand(u, u)
-    Gr = -(B.dot(B.T) + np.eye(u))
+    aG = cfg.get('active_G', active)
+    B = rng.rand(len(aG), len(aG))
+    Gr = -(B.dot(B.T) + np.eye(len(aG)))
     K = np.zeros((n, n))
     G = np.zeros((n, n))
     K[np.ix_(active, active)] = Kr
-    G[np.ix_(active, active)] = Gr
+    G[np.ix_(aG, aG)] = Gr
     try:
         import warnings
         with warnings.catch_warnings():
@@ -217,6 +218,51 @@ def real_replay(cfg):
         return None
     except Exception as e:
         return '%s: %s' % (type(e).__name__, str(e)[:160])
+
+
+def real_residual_replay(cfg):
+    """real function, float matrices of the same null patterns: largest relative residual |(K + lam KG) v| / (|K v|+|lam KG v|)
+    over the returned pairs with a non-zero vector, and the largest |v| on a null amplitude of K"""
+    import scipy.sparse as sp
+    rng = np.random.RandomState(2)
+    n, active, num, path, target = cfg['n'], cfg['active'], cfg['num'], cfg['path'], cfg['target']
+    u = len(active)
+    aG = cfg.get('active_G', active)
+    A = rng.rand(u, u)
+    B = rng.rand(len(aG), len(aG))
+    K = np.zeros((n, n))
+    G = np.zeros((n, n))
+    K[np.ix_(active, active)] = A.dot(A.T) + u * np.eye(u)
+    G[np.ix_(aG, aG)] = -(B.dot(B.T) + np.eye(len(aG)))
+    import warnings
+    try:
+        with warnings.catch_warnings():
+            warnings.simplefilter('ignore')
+            if target == 'analysis.lb':
+                from compmech.analysis import lb
+                vals, vecs = lb(sp.csr_matrix(K), sp.csr_matrix(G), sparse_solver=(path != 'dense'), silent=True, num_eigvalues=num)
+            else:
+                from compmech.panel import Panel
+                p = Panel(a=1., b=1., stack=[0], plyt=1., laminaprop=(1., 1., 0.3), m=1, n=1)
+                p.num_eigvalues = num
+                p.calc_k0 = lambda *a, **k: setattr(p, 'k0', sp.csr_matrix(K))
+                p.calc_kG0 = lambda *a, **k: setattr(p, 'kG0', sp.csr_matrix(G))
+                p.lb(sparse_solver=(path != 'dense'), silent=True)
+                vals, vecs = p.eigvals, p.eigvecs
+    except Exception as e:
+        return {'error': '%s: %s' % (type(e).__name__, e)}
+    vals, vecs = np.asarray(vals), np.asarray(vecs)
+    worst, onnull = 0., 0.
+    nullK = [r for r in range(n) if r not in active]
+    for i in range(min(len(vals), vecs.shape[1] if vecs.ndim == 2 else 0)):
+        v = vecs[:, i]
+        if not np.abs(v).max() > 0:
+            continue
+        a, b = K.dot(v), vals[i] * G.dot(v)
+        worst = max(worst, float(np.abs(a + b).max() / (np.abs(a).max() + np.abs(b).max() + 1e-300)))
+        if nullK:
+            onnull = max(onnull, float(np.abs(v[nullK]).max() / np.abs(v).max()))
+    return {'max_relative_residual': worst, 'max_on_null_amplitude': onnull, 'multipliers': [float(np.real(x)) for x in vals[:4]]}
 
 
 def real_order_replay(cfg):
@@ -274,6 +320,10 @@ def configs(tier, seed):
                     for num in nums:
                         out.append({'target': target, 'n': n, 'active': active, 'num': num, 'path': path,
                                     'group': '%s:%s' % (target, path), 'm': n, 'variant': '%s/num=%d/n=%d/u=%d' % (path, num, n, u)})
+                    if u >= 4:
+                        # in-plane-like amplitudes: rows/columns present in K, null in KG (the eigenproblem keeps them)
+                        out.append({'target': target, 'n': n, 'active': active, 'active_G': active[:-2], 'num': 2, 'path': path,
+                                    'group': '%s:%s' % (target, path), 'm': n, 'variant': '%s/num=2/n=%d/u=%d/KG-null-on-2-more' % (path, n, u)})
     out[0]['canary'] = True
     out[-1]['canary'] = True
     return out
@@ -325,8 +375,12 @@ def main():
             run.canary(r['canary_sat'], r['group'])
         if sats:
             fam = sorted({s['name'].split('[')[0] for s in sats})
+            real = real_residual_replay(cfg)
+            if not (real.get('error') or real.get('max_relative_residual', 0) > 1e-8 or real.get('max_on_null_amplitude', 0) > 1e-12):
+                run.harness_error('failed obligations %s of %s did not reproduce on the real function: %s' % (fam, cfg['variant'], real))
+                continue
             run.violation('%s/%s' % (cfg['group'], '+'.join(fam)), '%s %s: obligations %s fail (e.g. %s)' % (cfg['target'], cfg['variant'], fam, sats[0]['name']),
-                          {'cfg': cfg, 'failed': [s['name'] for s in sats][:12], 'model': sats[0]['model'], 'info': r.get('info')})
+                          {'cfg': cfg, 'failed': [s['name'] for s in sats][:12], 'model': sats[0]['model'], 'info': r.get('info'), 'real_function': real})
     return run.finish()
 
 
